@@ -177,7 +177,9 @@ def handle : List String → String
     | _, _ => "bad-op"
   | ["repo", seed] => if seed.toNat?.isSome then "ok" else "bad-op"
   | ["repo-hist", steps, seed] =>
-    if seed.toNat?.isSome ∧ (steps.splitOn ",").all (fun s => s.length = 1 ∧ s.toList.all (fun c => "bfFpmkixX".toList.contains c)) then "ok"
+    -- `N` (the cold store does not need warm-up) only as the first step
+    if seed.toNat?.isSome ∧ (steps.splitOn ",").all (fun s => s.length = 1 ∧ s.toList.all (fun c => "bfFpmkixXIJuwNcyY".toList.contains c))
+        ∧ ¬ ((steps.splitOn ",").drop 1).contains "N" then "ok"
     else "bad-op"
   | ["repo-read-data", seed] => if seed.toNat?.isSome then "ok" else "bad-op"
   | _ => "bad-op"
